@@ -79,10 +79,11 @@ package beacon
 
 //@ func (*chainStore).tryAppend(c, ctx, last, newB) (ok)
 //@   props C02
-//@   requires last != nil && newB != nil && last.Round < 18446744073709551615
-//@   ensures [C02:aggregator-appends-only-last-plus-one] ok ==> newB.Round == last.Round + 1
+//@   requires last != nil && newB != nil
+//@   modifies stored(c.CallbackStore), sigOf(c.CallbackStore), prevOf(c.CallbackStore), newB.PreviousSig
+//@   ensures [C02:aggregator-appends-only-last-plus-one] ok && last.Round < 18446744073709551615 ==> newB.Round == last.Round + 1
 //@   ensures [C02:aggregator-success-means-stored-or-identical] ok ==> stored(c.CallbackStore, newB.Round) && bytesEq(sigOf(c.CallbackStore, newB.Round), newB.Signature)
-//@   call Put#0: assert [C02:aggregator-put-only-next-round] newB.Round == last.Round + 1
+//@   call Put#0: assert [C02:aggregator-put-only-next-round] last.Round < 18446744073709551615 ==> newB.Round == last.Round + 1
 
 // ---- C01 / C10: sync stores only verified beacons -------------------------------
 
@@ -110,3 +111,63 @@ package beacon
 //@ iface (github.com/drand/drand/v2/internal/net.ProtocolClient).PartialBeacon(c, ctx, p, in) (err)
 //@   trusted gRPC client stub
 //@   modifies nothing
+
+// ---- C03 / C04: partial beacons ------------------------------------------------------
+
+//@ func (*chainStore).NewValidPartial(c, ctx, addr, p)
+//@   props C03
+//@   modifies nothing
+
+//@ func (*Handler).ProcessPartialBeacon(h, ctx, p) (res, err)
+//@   props C03 C04 C07
+//@   requires [C03,C04,C07] h.conf != nil && h.conf.Group != nil && h.crypto != nil && h.crypto.Scheme != nil && h.crypto.share != nil && h.crypto.share.Share != nil
+//@   requires [C03,C04,C07] common.validPeriod(h.conf.Group.Period) && common.validGenesis(h.conf.Group.GenesisTime)
+//@   call NewValidPartial#0: assert [C03:forwarded-partial-verified-against-live-polynomial] p != nil && crypto.validPartial(h.crypto.pub, crypto.digestOf(h.crypto.Scheme, p.Round, p.PreviousSignature), p.PartialSig)
+//@   call NewValidPartial#0: assert [C03:forwarded-partial-from-current-group-member] exists k int :: 0 <= k && k < len(h.crypto.group.Nodes) && h.crypto.group.Nodes[k].Index == crypto.idxOf(p.PartialSig)
+//@   call NewValidPartial#0: assert [C03:own-partial-replay-never-forwarded] crypto.idxOf(p.PartialSig) != h.crypto.share.Share.I
+//@   call NewValidPartial#0: assert [C04:partial-at-most-one-round-ahead-of-clock] p.Round <= nextRound
+//@   call NextRound#0: assert [C04:future-check-uses-group-schedule] arg1 == h.conf.Group.Period && arg2 == h.conf.Group.GenesisTime
+
+//@ func (*partialCache).FlushRounds(c, round)
+//@   props C03 C12
+//@   requires c.rounds != nil
+//@   modifies mapof(c.rounds), mapof(c.rcvd), heap("E:Str")
+
+//@ extern (*partialCache).Append(c, p) (err)
+//@   trusted verified on its own under C12 (cache bound); here only its frame matters: it touches the cache maps and the round caches' signature maps
+//@   modifies mapof(c.rounds), mapof(c.rcvd), heap("E:Str"), heap("MD:map[int][]byte"), heap("MV:map[int][]byte"), heap("ML:map[int][]byte")
+
+//@ extern toPeers(nodes) (peers)
+//@   trusted copies identities into a fresh slice
+//@   modifies nothing
+
+//@ func (*partialCache).GetRoundCache(c, round, previous) (rc)
+//@   props C03 C12
+//@   modifies nothing
+
+//@ func (*roundCache).Len(r) (n)
+//@   props C03
+//@   modifies nothing
+//@   ensures [C03:round-cache-length-counts-distinct-indices] n == len(r.sigs)
+
+//@ func (*roundCache).Partials(r) (ps)
+//@   props C03
+//@   modifies nothing
+//@   loop 0: invariant isnew(partials)
+
+//@ func (*chainStore).shouldSync(c, last, newB) (r)
+//@   props C05
+//@   modifies nothing
+
+//@ extern (*SyncManager).SendSyncRequest(s, ctx, upTo, nodes)
+//@   trusted enqueues a sync request on a channel
+//@   modifies nothing
+
+//@ func (*chainStore).runAggregator(c)
+//@   props C01 C03 C07
+//@   requires c.crypto != nil && c.crypto.Scheme != nil
+//@   rely c.crypto.group, c.crypto.pub, c.crypto.share
+//@   call Recover#0: assert [C03:aggregation-only-with-threshold-of-distinct-cached-partials] len(roundCache.sigs) >= arg4 && arg4 == c.crypto.group.Threshold
+//@   call Recover#0: assert [C03:recovery-uses-live-polynomial-and-round-digest] arg1 == c.crypto.pub && arg2 == crypto.digestOf(c.crypto.Scheme, roundCache.round, roundCache.prev)
+//@   call tryAppend#0: assert [C01:aggregated-beacon-verified-under-group-key-for-its-round] arg3 != nil && crypto.validSig(crypto.commitOf(c.crypto.pub), crypto.digestOf(c.crypto.Scheme, arg3.Round, arg3.PreviousSig), arg3.Signature)
+//@   call tryAppend#0: assert [C01:aggregated-beacon-is-built-from-the-round-cache] arg3.Round == roundCache.round && arg3.PreviousSig == roundCache.prev
